@@ -179,7 +179,12 @@ META["C18"] = dict(
         "a real CertReloader with real PEM files (rcgen pairs A, B, expired C; truncations; garbage; missing; a reload landing "
         "between the two writes of a two-file update is just a history); after every step a fresh TLS handshake whose client "
         "really verifies the handshake signature tells which leaf is served, and Trace_CertReload.tla compares leaf, reported "
-        "info, reload counter, last-reload time and the liveness of an old session with the model it runs itself.",
+        "info, reload counter, last-reload time and the liveness of an old session with the model it runs itself; the same "
+        "observation is made through a running Server that shares the reloader's acceptor cell (first connection accepted after "
+        "the step). MC_CertReloadSteps.tla models reload() at the grain of the code (read certificate, read key, information, "
+        "commit) with file replacements interleaved: it holds when the information comes from the bytes already read and fails "
+        "with the deviation InfoReadAgain (the pinned code, finding F25); the harness reproduces that interleaving with a second "
+        "thread that keeps replacing the certificate file while reloads run.",
    technique="TLA+ spec (CertReload.tla) + TLC enumeration of all 4-step histories replayed on a real CertReloader + TLC trace validation",
    design_ref="DESIGN.md 3/C18")
 META["C19"] = dict(
